@@ -306,6 +306,124 @@ fn run_one(ctx: &Ctx, seq: &[Tok], u: &Universe, style: usize) {
     }
 }
 
+/// Whole-section enumeration: every sequence of 1..=4 complete sections whose (name, key, private key)
+/// come from small sets, with the fields in varying order and comments / blank lines interleaved.
+/// Reaches cross-section duplicates at any distance, which need >= 6 line tokens.
+fn section_enumeration(ctx: &Ctx) {
+    let mut rng = Rng::fork(ctx.seed, "C17-sections");
+    let names = ["alice", "bob", "mallory", "zed"];
+    let pks: Vec<String> = (0..3).map(|_| refspec::encode_pk(&refspec::pubkey_of(&rng.arr32()))).collect();
+    let sk = {
+        let mut b = refspec::SK_MAGIC.to_vec();
+        b.extend_from_slice(&rng.bytes(80));
+        b64(&b)
+    };
+    // a section template: (name index, key index, has private key)
+    let mut templates: Vec<(usize, usize, bool)> = Vec::new();
+    for n in 0..names.len() {
+        for k in 0..pks.len() {
+            templates.push((n, k, (n + k) % 2 == 0));
+        }
+    }
+    let nt = templates.len();
+    let maxn = ctx.tier.pick(3, 4);
+    let mut seqs: Vec<Vec<usize>> = Vec::new();
+    for a in 0..nt {
+        seqs.push(vec![a]);
+        for b in 0..nt {
+            seqs.push(vec![a, b]);
+            for c in 0..nt {
+                seqs.push(vec![a, b, c]);
+                if maxn >= 4 {
+                    for d in 0..nt {
+                        seqs.push(vec![a, b, c, d]);
+                    }
+                }
+            }
+        }
+    }
+    ctx.note("section_enumeration", json!({"section_templates": nt, "max_sections": maxn, "sequences": seqs.len(), "exhaustive": true, "names": names, "distinct_keys": pks.len()}));
+    par_for(seqs.len(), crate::util::ncpu(), |i| {
+        let seq = &seqs[i];
+        let mut text = String::new();
+        for (j, &t) in seq.iter().enumerate() {
+            let (n, k, has_sk) = templates[t];
+            let lines = [format!("Name = {}", names[n]), format!("PublicKey = {}", pks[k]), format!("PrivateKey = {}", sk)];
+            let order: [usize; 3] = match (i + j) % 4 {
+                0 => [0, 1, 2],
+                1 => [1, 0, 2],
+                2 => [2, 1, 0],
+                _ => [1, 2, 0],
+            };
+            if (i + j) % 3 == 0 {
+                text.push_str("# a comment\n");
+            }
+            text.push_str("[Key]\n");
+            for o in order {
+                if o == 2 && !has_sk {
+                    continue;
+                }
+                text.push_str(&lines[o]);
+                text.push('\n');
+            }
+            if (i + j) % 2 == 0 {
+                text.push('\n');
+            }
+        }
+        // model: reject iff a name or a key repeats
+        let mut dup = None;
+        for a in 0..seq.len() {
+            for b in 0..a {
+                let (na, ka, _) = templates[seq[a]];
+                let (nb, kb, _) = templates[seq[b]];
+                if na == nb {
+                    dup = Some("duplicate name across sections");
+                } else if ka == kb && dup.is_none() {
+                    dup = Some("duplicate public key across sections");
+                }
+            }
+        }
+        ctx.eval();
+        ctx.distinct(&format!("sections|{:?}", seq));
+        match guarded(|| Keyring::new(&text)) {
+            Err(p) => ctx.violation(&format!("C17:parser-panic:{}", panic_site(&p)), json!({"keyring_text": text})),
+            Ok(Ok(k)) => {
+                if let Some(why) = dup {
+                    ctx.violation(&format!("C17:accepted-a-keyring-that-must-be-rejected:{}", why), json!({"keyring_text": text, "parsed_names": debug_names(&k)}));
+                    return;
+                }
+                // entries are the sections, in order; lookups by name and by key agree
+                let got = debug_names(&k);
+                let want: Vec<String> = seq.iter().map(|t| names[templates[*t].0].to_string()).collect();
+                if got != want {
+                    ctx.violation("C17:accepted:entries-are-not-the-sections-in-order", json!({"keyring_text": text, "parsed_names": got, "want": want}));
+                    return;
+                }
+                for &t in seq {
+                    let (n, kx, has_sk) = templates[t];
+                    let e = k.get_key(names[n]);
+                    let ok = match e {
+                        Some(e) => e.public_key.as_str() == pks[kx] && e.private_key.is_some() == has_sk && k.get_name_from_key(&e.public_key).as_deref() == Some(names[n]),
+                        None => false,
+                    };
+                    if !ok {
+                        ctx.violation("C17:accepted:lookup-does-not-return-the-section", json!({"keyring_text": text, "name": names[n]}));
+                        return;
+                    }
+                }
+                ctx.seen("sections: well-formed keyring accepted, entries == sections in order");
+            }
+            Ok(Err(e)) => {
+                if dup.is_none() {
+                    ctx.violation("C17:rejected-a-well-formed-keyring", json!({"keyring_text": text, "error": e.to_string()}));
+                } else {
+                    ctx.seen(&format!("sections: rejected ({})", dup.unwrap()));
+                }
+            }
+        }
+    });
+}
+
 fn token_enumeration(ctx: &Ctx) {
     let toks = all_tokens();
     let maxlen = ctx.tier.pick(5, 6);
@@ -668,12 +786,16 @@ pub fn run(ctx: &Ctx) {
     );
     ctx.assume("duplicate field inside a section, fields before the first section, junk lines and an empty file are 'either': only the consequences of acceptance are checked");
     token_enumeration(ctx);
+    section_enumeration(ctx);
     tool_written(ctx);
     documented_layout(ctx);
     public_key_checksums(ctx);
     no_crash_on_text(ctx);
     ctx.require("must-accept: accepted", 300);
     ctx.require("must-reject: rejected", 10_000);
+    ctx.require("sections: rejected (duplicate public key", 100);
+    ctx.require("sections: rejected (duplicate name", 100);
+    ctx.require("sections: well-formed keyring accepted", 100);
     ctx.require("tool-written block parses back", 30);
     ctx.require("documented layout accepted", 6);
     ctx.require("single-character corruption", 3000);
